@@ -324,8 +324,8 @@ structure LabelState where
   data : List Int
   residual : List (Nat × Nat × PyStr)
 
-/-- body of `for i, j, label in edge_labels:`; `posEs` = the stored entries of `adjacency > 0` -/
-def edgeLabelStep (nRow nCol : Nat) (es posEs : List Entry) (colors : List PyStr) (st : LabelState)
+/-- body of `for i, j, label in edge_labels:` -/
+def edgeLabelStep (nRow nCol : Nat) (es : List Entry) (colors : List PyStr) (st : LabelState)
     (lab : Int × Int × Int) : Except PyErr LabelState :=
   let i := lab.1
   let j := lab.2.1
@@ -335,9 +335,9 @@ def edgeLabelStep (nRow nCol : Nat) (es posEs : List Entry) (colors : List PyStr
   else
     let c := (label % (colors.length : Int)).toNat
     if entryAt es i.toNat j.toNat ≠ 0 then
-      match posEs.findIdx? (fun e => e.1 = i.toNat ∧ e.2.1 = j.toNat) with
+      match es.findIdx? (fun e => e.1 = i.toNat ∧ e.2.1 = j.toNat) with
       | some k => .ok ⟨st.data.set k (c : Int), st.residual⟩
-      | none => .error PyErr.outOfModel       -- scipy inserts a new entry into `adjacency_labels`
+      | none => .error PyErr.outOfModel       -- cannot happen: a non-zero sum has a stored entry
     else .ok ⟨st.data, st.residual ++ [(i.toNat, j.toNat, colors.getD c [])]⟩
 
 /-- `edge_colors`: the default colour, overwritten where `adjacency_labels.data >= 0` -/
@@ -347,21 +347,20 @@ def edgeColorArray (m : Nat) (data : List Int) (colors : List PyStr) (edgeColor 
     if v ≥ 0 then colors.getD v.toNat [] else edgeColor
 
 /-- `get_edge_colors(adjacency, edge_labels, edge_color, label_colors)`; `es` = stored entries in storage order.
-    `adjacency_labels = (adjacency > 0)` stores the positive entries only (in storage order): `data`, `edge_order`
-    and the positions that receive a label colour are numbered in *that* matrix, while `edge_colors` and the COO
-    arrays read by the caller are numbered over all stored entries — the model keeps the two numberings as the code
-    does (they coincide when every stored weight is positive). -/
+    `adjacency_labels` has the sparsity structure of `adjacency` (after the repair b9a209f6; before, it was
+    `adjacency > 0`, whose entries were numbered differently from the COO arrays read by the caller as soon as a
+    stored weight was negative or zero): `data`, `edge_order` and `edge_colors` are all numbered over the stored
+    entries. -/
 def getEdgeColors (sort : List Int → List Nat) (nRow nCol : Nat) (es : List Entry)
     (edgeLabels : List (Int × Int × Int)) (edgeColor : PyStr) (lc : LabelColors) : Except PyErr EdgeColors :=
-  let posEs := es.filter fun e => e.2.2 > 0
-  let data0 : List Int := posEs.map fun _ => -1
+  let data0 : List Int := es.map fun _ => -1
   if edgeLabels.isEmpty then
     .ok ⟨edgeColorArray es.length data0 [] edgeColor, sort data0, []⟩
   else
     match getLabelColors lc with
     | .error e => .error e
     | .ok colors =>
-      match edgeLabels.foldlM (edgeLabelStep nRow nCol es posEs colors) ⟨data0, []⟩ with
+      match edgeLabels.foldlM (edgeLabelStep nRow nCol es colors) ⟨data0, []⟩ with
       | .error e => .error e
       | .ok st => .ok ⟨edgeColorArray es.length st.data colors edgeColor, sort st.data, st.residual⟩
 
